@@ -37,6 +37,14 @@ pub enum Kind {
     GaussianNbTies,
     MultinomialNb,
     MultinomialNbTies,
+    /// 3..5 classes whose weighted totals inside one unsplittable leaf form a near-tie chain: they differ by
+    /// relative steps of 3e-7 .. 1.2e-6 (a few f32 ulps), built from sample weights 1, 1+step, 1+2 step, ... on
+    /// identical rows. Exact comparison orders them; any tolerance-based notion of "tied" is non-transitive on
+    /// such a chain and, folded in hash order, picks different classes from fit to fit.
+    TreeNearTieChain,
+    /// multinomial NB with 3..4 classes whose count statistics differ in a single count out of thousands:
+    /// near-tied, never tied, posteriors
+    MultinomialNbNearTies,
 }
 
 #[derive(Clone, Debug, Serialize, Deserialize)]
@@ -110,11 +118,44 @@ impl Cfg {
     fn is_tree(&self) -> bool {
         matches!(
             self.kind,
-            Kind::TreeTwoClassTieFree | Kind::TreeTwoClassTies | Kind::TreeMultiClass | Kind::TreeDefaults
+            Kind::TreeTwoClassTieFree | Kind::TreeTwoClassTies | Kind::TreeMultiClass | Kind::TreeDefaults | Kind::TreeNearTieChain
         )
     }
 
+    /// (rows, labels, weights) of the near-tie-chain class
+    fn chain_data(&self) -> (Array2<f64>, Array1<usize>, Option<Array1<f32>>) {
+        let k = self.classes.clamp(3, 5);
+        let mut r = SplitMix(self.data_seed ^ 0xc4a1);
+        let step = [8e-7f64, 5e-7, 1.1e-6, 3e-7, 1.2e-6][r.below(5)];
+        let mult = 1 + r.below(3);
+        // which class gets which rung of the ladder
+        let mut rank: Vec<usize> = (0..k).collect();
+        for i in (1..k).rev() {
+            rank.swap(i, r.below(i + 1));
+        }
+        let rest = if self.batches <= 1 { 0 } else { self.n };
+        let generic = eighths(self.data_seed, rest, self.p);
+        let generic_y = data::labels_from(&generic, self.data_seed, 2, 0.25);
+        let block = k * mult;
+        let mut x = Array2::from_elem((block + rest, self.p), -20.0);
+        let mut y = Array1::zeros(block + rest);
+        let mut w = Array1::from_elem(block + rest, 1.0f32);
+        for i in 0..block {
+            let c = i % k;
+            y[i] = c;
+            w[i] = (1.0f64 + step * rank[c] as f64) as f32;
+        }
+        for i in 0..rest {
+            x.row_mut(block + i).assign(&generic.row(i));
+            y[block + i] = generic_y[i];
+        }
+        (x, y, Some(w))
+    }
+
     fn tree_data(&self) -> (Array2<f64>, Array1<usize>, Option<Array1<f32>>) {
+        if self.kind == Kind::TreeNearTieChain {
+            return self.chain_data();
+        }
         let classes = match self.kind {
             Kind::TreeMultiClass => self.classes.clamp(3, 5),
             _ => 2,
@@ -152,6 +193,10 @@ impl Cfg {
         if self.dup_column && self.p >= 2 {
             let c0 = q.column(0).to_owned();
             q.column_mut(self.p - 1).assign(&c0);
+        }
+        if self.kind == Kind::TreeNearTieChain {
+            // one query sits on the block of identical rows
+            q.row_mut(0).fill(-20.0);
         }
         let mut ds = DatasetBase::new(x.clone(), y);
         if let Some(w) = w {
@@ -283,6 +328,10 @@ impl Cfg {
                 out.arr_usize("gnb:predict_generic_rows", &m.predict(&q_generic));
                 out.arr_usize("gnb:predict_train", &m.predict(&x));
                 if q_ties.nrows() > 0 {
+                    // just off the exact tie: the two mirrored posteriors differ in their last bits only
+                    let offs = [1e-9, -1e-9, 1e-7, -1e-7, 3e-7, -3e-7, 1e-6, -1e-6, 1e-5, -1e-5];
+                    let near = Array2::from_shape_fn((offs.len(), p), |(i, j)| if j == 0 { offs[i] } else { 0.0 });
+                    out.arr_usize("gnb:predict_near_tie_rows", &m.predict(&near));
                     let pt = m.predict(&q_ties);
                     out.arr_usize("nb:predict_on_exact_posterior_tie", &pt);
                     out.note("nb:predict_on_exact_posterior_tie", format!("labels for the all-zero queries: {:?}", pt.to_vec()));
@@ -295,7 +344,22 @@ impl Cfg {
     fn run_mnb(&self, out: &mut Out) {
         let ties = self.kind == Kind::MultinomialNbTies;
         let p = self.p.max(2);
-        let (x, y) = if ties {
+        let (x, y) = if self.kind == Kind::MultinomialNbNearTies {
+            // every class gets the same rows (large counts); class c has c added to one single count
+            let k = self.classes.clamp(3, 4);
+            let per = (self.n / k).clamp(2, 12);
+            let base = data::counts(self.data_seed, per, p, 60).mapv(|v| v + 40.0);
+            let mut x = Array2::zeros((per * k, p));
+            let mut y = Array1::zeros(per * k);
+            for c in 0..k {
+                for i in 0..per {
+                    x.row_mut(c * per + i).assign(&base.row(i));
+                    y[c * per + i] = c;
+                }
+                x[(c * per, c % p)] += c as f64;
+            }
+            (x, y)
+        } else if ties {
             // classes 0 and 1 receive exactly the same rows (in the same order)
             let half = (self.n / 2).max(2);
             let a = data::counts(self.data_seed, half, p, 6);
@@ -357,7 +421,7 @@ impl Runnable for Cfg {
         let mut out = Out::new();
         match self.kind {
             Kind::GaussianNb | Kind::GaussianNbTies => self.run_gnb(&mut out),
-            Kind::MultinomialNb | Kind::MultinomialNbTies => self.run_mnb(&mut out),
+            Kind::MultinomialNb | Kind::MultinomialNbTies | Kind::MultinomialNbNearTies => self.run_mnb(&mut out),
             _ => self.run_tree(&mut out),
         }
         out
@@ -398,12 +462,14 @@ impl Runnable for Cfg {
             Kind::GaussianNbTies => "gaussian_nb_exact_posterior_tie",
             Kind::MultinomialNb => "multinomial_nb",
             Kind::MultinomialNbTies => "multinomial_nb_exact_posterior_tie",
+            Kind::TreeNearTieChain => "tree_near_tie_chain",
+            Kind::MultinomialNbNearTies => "multinomial_nb_near_tied_posteriors",
         });
         obs.class_if(self.kind == Kind::GaussianNb && self.batches > 1, "gaussian_nb_incremental");
         if self.is_tree() {
             obs.class_if(self.entropy && self.kind != Kind::TreeDefaults, "tree_entropy");
             obs.class_if(self.dup_column && self.p >= 2, "tree_duplicate_feature_column");
-            obs.class_if(self.real_weights && self.kind != Kind::TreeTwoClassTies, "tree_real_valued_sample_weights");
+            obs.class_if(self.real_weights && !matches!(self.kind, Kind::TreeTwoClassTies | Kind::TreeNearTieChain), "tree_real_valued_sample_weights");
             obs.class_if(
                 self.real_weights && self.kind == Kind::TreeMultiClass,
                 "tree_three_plus_classes_real_valued_weights",
@@ -420,7 +486,12 @@ impl Runnable for Cfg {
         // impurities are sums over >= 3 hash-ordered classes)
         obs.nontrivial_if(matches!(
             self.kind,
-            Kind::TreeTwoClassTies | Kind::TreeMultiClass | Kind::GaussianNbTies | Kind::MultinomialNbTies
+            Kind::TreeTwoClassTies
+                | Kind::TreeMultiClass
+                | Kind::GaussianNbTies
+                | Kind::MultinomialNbTies
+                | Kind::TreeNearTieChain
+                | Kind::MultinomialNbNearTies
         ));
     }
 
@@ -440,6 +511,8 @@ pub fn strategy(tier: Tier) -> impl Strategy<Value = Cfg> {
         2 => Just(Kind::GaussianNbTies),
         2 => Just(Kind::MultinomialNb),
         2 => Just(Kind::MultinomialNbTies),
+        3 => Just(Kind::TreeNearTieChain),
+        1 => Just(Kind::MultinomialNbNearTies),
     ];
     (
         (kind, any::<u64>(), 12usize..=max_n, 1usize..=5, 2usize..=5),
